@@ -42,7 +42,7 @@ RULE = ("case = one generated source schedule (+ parameters, + tie seed); distin
         "sources with >=1 item each; debounce: >=2 items and an arrival within 1/64 s of a window edge or a non-empty burst "
         "followed by passthrough items")
 REQUIRED_REACH = ["merge_cases", "merge_source_error_cases", "merge_multi_done_sets", "merge_order_checked",
-                  "debounce_cases", "debounce_tie_at_debounce_edge", "debounce_tie_at_max_window_edge",
+                  "debounce_cases", "debounce_tie_at_debounce_edge", "debounce_tie_at_max_window_edge", "debounce_max_window_shorter_than_quiet_period",
                   "debounce_burst_and_passthrough", "sentinel_valued_item_cases", "wait_probe_calls"]
 ASSUMPTIONS = ["virtual-time asyncio loop (vf/vclock.py); consumer pulls the next item immediately",
                "burst membership is only constrained to the interval allowed by every reading of the docstring "
@@ -93,7 +93,7 @@ def gen_debounce(rnd, deep):
         pool = [0, "y", 0.025, 0.05, 0.05, 0.1, 0.1, 0.15, 0.2]
     else:
         d = rnd.choice([0.125, 0.25, 0.5])
-        w = rnd.choice([d, 2 * d, 2 * d, 4 * d, 4 * d, 64.0])
+        w = rnd.choice([d, 2 * d, 2 * d, 4 * d, 4 * d, 64.0, d / 2, d / 4])   # incl. a max window shorter than the quiet period
         pool = [0, 0, "y", d / 4, d / 2, d / 2, d - Q, d, d, d, d + Q, 2 * d, w, w - Q]
         pool = [g for g in pool if g in (0, "y") or g > 0]
     n = rnd.randint(0, 8 if deep else 6)
@@ -110,6 +110,11 @@ def gen_debounce(rnd, deep):
             items.append([_gap(rnd, pool), [rnd.randint(0, 4), i]])
     return {"kind": "debounce", "d": d, "w": w, "items": items, "strings": sentinel_class,
             "t0": rnd.choice([0, 0, 0.5]), "tie_seed": rnd.randint(0, 10**6)}
+
+
+def _note_short_window(case, acc):
+    if case.get("kind") == "debounce" and case["w"] < case["d"]:
+        acc.hit("debounce_max_window_shorter_than_quiet_period")
 
 
 def grid_cases():
@@ -380,6 +385,7 @@ def run_debounce(case, acc: Acc):
             await asyncio.sleep(case["t0"])
         res["t0"] = vclock.vnow()
         try:
+            _note_short_window(case, acc)
             async for x in iu.debounced_sorted_prefix(inner(), key=keyf, debounce_seconds=case["d"],
                                                       max_window_seconds=case["w"]):
                 out.append([x, vclock.vnow()])
